@@ -521,15 +521,12 @@ End KeySignature.
 
 Section Signing.
 Variable verify : pubkey -> Z -> Z -> bytes -> bytes -> bool.
-Variable sign : privkey -> Z -> Z -> bytes -> sigdata.
+Variable sign_rsa : privkey -> Z -> Z -> bytes -> bytes.
+Variable sign_ec : privkey -> Z -> Z -> bytes -> Z * Z.
 
-(* contract of the RSA signer: the right kind of signature, valid for the public half *)
+(* contract of the RSA signer: what it returns is valid for the public half of the key *)
 Definition rsa_signer_correct : Prop :=
-  forall n e d h m,
-    (exists b, sign (PrivRSA n e d) c16_alg_rsapss h m = SigPSS b /\
-               verify (PubRSA n e) c16_alg_rsapss h m b = true) /\
-    (exists b, sign (PrivRSA n e d) c16_alg_rsassa h m = SigSSA b /\
-               verify (PubRSA n e) c16_alg_rsassa h m b = true).
+  forall n e d sc h m, verify (PubRSA n e) sc h m (sign_rsa (PrivRSA n e d) sc h m) = true.
 
 Lemma sign_then_verify ks sa ha n e d data sc h :
   rsa_signer_correct ->
@@ -538,7 +535,7 @@ Lemma sign_then_verify ks sa ha n e d data sc h :
   (sc = c16_alg_rsapss /\ h = default_hash c16_alg_sha384 ha \/
    sc = c16_alg_rsassa /\ h = default_hash c16_alg_sha256 ha) ->
   (h = c16_alg_sha256 \/ h = c16_alg_sha384) ->
-  exists ks', ks_set_signature sign ks sa ha (PrivRSA n e d) data = Ok ks' /\
+  exists ks', ks_set_signature sign_rsa sign_ec ks sa ha (PrivRSA n e d) data = Ok ks' /\
               ks_verify verify ks' data = Ok tt /\
               s_scheme (ks_sig ks') = sc /\ s_hashalg (ks_sig ks') = h.
 Proof.
@@ -546,19 +543,21 @@ Proof.
   destruct (rsa_key_roundtrip n e Hn Hl He) as (k & K1 & K2).
   unfold ks_set_signature. cbn [public_of]. rewrite K1. cbn [bind].
   unfold new_signature_data. rewrite <- Dsc.
+  assert (RH : rsa_hash_ok h = true) by (unfold rsa_hash_ok; lia).
   destruct Hsc as [[E Eh]|[E Eh]]; rewrite E in *.
-  - rewrite Z.eqb_refl. cbn [bind]. rewrite <- Eh.
-    destruct (SC n e d h data) as [(b & S & V) _].
-    rewrite S. cbn [bind set_signature_by_data set_signature_data].
+  - rewrite Z.eqb_refl. cbn zeta. rewrite <- Eh, RH. cbn [bind].
+    pose proof (SC n e d c16_alg_rsapss h data) as V.
+    cbn [bind set_signature_by_data set_signature_data].
     eexists; split; [reflexivity|]. cbn [ks_sig ks_key s_scheme s_hashalg].
     split; [|split; auto].
     unfold ks_verify. cbn [ks_sig ks_key].
     unfold signature_data. cbn [s_scheme s_data]. rewrite Z.eqb_refl. rewrite K2.
     unfold sig_verify. cbn [s_hashalg]. rewrite <- Eh.
     destruct Hh as [Hh|Hh]; rewrite Hh in *; cbn; rewrite V; reflexivity.
-  - change (c16_alg_rsassa =? c16_alg_rsapss) with false. rewrite Z.eqb_refl. cbn [bind]. rewrite <- Eh.
-    destruct (SC n e d h data) as [_ (b & S & V)].
-    rewrite S. cbn [bind set_signature_by_data set_signature_data].
+  - change (c16_alg_rsassa =? c16_alg_rsapss) with false. rewrite Z.eqb_refl. cbn zeta.
+    rewrite <- Eh, RH. cbn [bind].
+    pose proof (SC n e d c16_alg_rsassa h data) as V.
+    cbn [bind set_signature_by_data set_signature_data].
     eexists; split; [reflexivity|]. cbn [ks_sig ks_key s_scheme s_hashalg].
     split; [|split; auto].
     unfold ks_verify. cbn [ks_sig ks_key].
@@ -571,27 +570,31 @@ Qed.
 End Signing.
 
 Section SigningEC.
-Variable sign : privkey -> Z -> Z -> bytes -> sigdata.
+Variable sign_rsa : privkey -> Z -> Z -> bytes -> bytes.
+Variable sign_ec : privkey -> Z -> Z -> bytes -> Z * Z.
 
-(* ECDSA / SM2: SetSignature succeeds for every key with coordinates below 2^256 and every (r, s)
+(* ECDSA: SetSignature succeeds for every key with coordinates below 2^256 and every (r, s)
    below 2^256 the signer returns, and stores exactly that pair in 64 bytes *)
 Lemma ec_set_signature_total ks sa ha x y d data r s :
   0 <= x < 2 ^ 256 -> 0 <= y < 2 ^ 256 ->
   detect_scheme sa (PrivECC x y d) = c16_alg_ecdsa ->
-  sign (PrivECC x y d) c16_alg_ecdsa (default_hash c16_alg_sha512 ha) data = SigECDSA r s ->
+  cbnt_hash_size (default_hash c16_alg_sha512 ha) <> None ->
+  sign_ec (PrivECC x y d) c16_alg_ecdsa (default_hash c16_alg_sha512 ha) data = (r, s) ->
   0 <= r < 2 ^ 256 -> 0 <= s < 2 ^ 256 ->
-  exists ks', ks_set_signature sign ks sa ha (PrivECC x y d) data = Ok ks' /\
+  exists ks', ks_set_signature sign_rsa sign_ec ks sa ha (PrivECC x y d) data = Ok ks' /\
               pub_key (ks_key ks') = Ok (PubECC x y) /\
               signature_data (ks_sig ks') = Ok (SigECDSA r s) /\
               zlen (s_data (ks_sig ks')) = 64 /\ zlen (k_data (ks_key ks')) = 64 /\
               s_hashalg (ks_sig ks') = default_hash c16_alg_sha512 ha.
 Proof.
-  intros Hx Hy D S Hr Hs.
+  intros Hx Hy D HS S Hr Hs.
   destruct (ecc_key_roundtrip x y Hx Hy) as [(k & K1 & K2 & K3) _].
   unfold ks_set_signature. cbn [public_of]. rewrite K1. cbn [bind].
   unfold new_signature_data. rewrite D.
   change (c16_alg_ecdsa =? c16_alg_rsapss) with false.
-  change (c16_alg_ecdsa =? c16_alg_rsassa) with false. rewrite Z.eqb_refl. rewrite S. cbn [bind].
+  change (c16_alg_ecdsa =? c16_alg_rsassa) with false. rewrite Z.eqb_refl. cbn zeta.
+  destruct (cbnt_hash_size (default_hash c16_alg_sha512 ha)); [|congruence].
+  rewrite S. cbn [bind fst snd].
   set (m0 := mkSig _ _ _ _ _).
   destruct (ecdsa_signature_roundtrip m0 r s ha ltac:(lia) ltac:(lia)) as (m' & M1 & M2 & M3).
   rewrite M1. cbn [bind]. eexists; split; [reflexivity|]. cbn [ks_key ks_sig].
